@@ -626,6 +626,10 @@ func (a *Agent) gatherCandidatesLocalUDPMux(ctx context.Context) error { //nolin
 				!hostNetworkTypeEnabled(configuredNetworkTypes(a.networkTypes), udp, ip) {
 				continue
 			}
+			// Same RFC 8445 5.1.1.1 exclusions as for interface addresses (site-local, IPv4-compatible).
+			if candidateIP.To4() == nil && len(candidateIP) == net.IPv6len && !isSupportedIPv6Partial(candidateIP) {
+				continue
+			}
 
 			var address string
 			var isLocationTracked bool
